@@ -69,6 +69,13 @@ FIRST_MISSED = {
     "C05-M": "L1 was too permissive: for replace it accepted either survivor of a merge (as it must for the insert family, where the crate keeps the existing node); replace now has its own rule - whatever becomes adjacent is merged into the earlier node - which is what the crate does and what the statement says; the quick sample of small forests is stratified towards forests with two or more text nodes",
     "C07-M": "more one-call jobs on small declaration- and attribute-rich forests; call instances are weighted so that calls on two different nodes with a movable second argument win over calls that must be refused",
     "C10-M": "reported by C19 only: the change is in the name serialiser shared by both output methods but shows through the HTML5 serialiser alone, which the C10 check does not drive; C19 gained a family for it (outer default namespace, prefixed SVG / MathML / XHTML element with a declaration of its own, elements of the outer namespace inside)",
+    "C01-N": "U+0085, U+2028 and U+00A0 in the character data and attribute values of the serialiser checks' random forests (they were in the parser checks' documents only)",
+    "C06-N": "comment texts that end in a hyphen (and other near-misses of the one refused pattern) among the value setters",
+    "C08-N": "every third parse of the interning histories is preceded by an input that ends inside open elements carrying declarations (refused): nothing of it may reach the next parse",
+    "C11-N": "two insertions through ONE mutable view (attr_session / ns_session: an existing key, then a new one) - the harness had made a fresh view for every call",
+    "C13-N": "a comparison that is not an equivalence (no two strings are equal) also on pairs (a, a): new L1 operator AdvancedNever",
+    "C17-N": "NOT reported, by decision: the change ends a text span before a trailing empty CDATA section, which is one of the two readings L1 accepts (11.5 item 15: the statement's 'last merged part' does not say whether an empty section is one)",
+    "C19-N": "fragments with a top-level script / style / CDATA-section element followed by top-level character data with markup characters",
     "C12-F": "xml_id_node of a document created by the call must lie inside it (new clause under C12); clone profile parses xml:id documents and clones whole documents",
     "C14-E": "a non-ASCII character in the bracket strings (] > x < CR e-acute up to length 4 / 5)",
     "C17-F": "any white space between a PI's target and its data (two spaces, newline + indent, CR LF)",
